@@ -554,6 +554,8 @@ func (fr *frame) load(instr ssa.Instruction, x Value) Value {
 		return copyVal(*p)
 	case SymPtr:
 		return fr.m.loadSym(p)
+	case SymElem:
+		return fr.m.symArrayIndex(fr, instr, p.arr, p.idx)
 	case *Opaque:
 		if p == nil {
 			fr.rtPanic(instr, "invalid memory address or nil pointer dereference")
@@ -587,7 +589,31 @@ func (fr *frame) store(instr ssa.Instruction, addr Value, v Value) {
 	}
 }
 
+// SymElem: address of an element of a table selected by a symbolic index (read-only).
+type SymElem struct {
+	arr Array
+	idx Num
+}
+
 func (fr *frame) indexAddr(instr ssa.Instruction, x, idx Value) Value {
+	if n, ok := idx.(Num); ok && n.t != nil {
+		switch x := x.(type) {
+		case *Value:
+			if x != nil {
+				if a, ok := (*x).(Array); ok {
+					return SymElem{a, n}
+				}
+			}
+		case Slice:
+			if x.rope == nil && x.arr != nil {
+				a := make(Array, x.len)
+				for i := range a {
+					a[i] = *x.At(i)
+				}
+				return SymElem{a, n}
+			}
+		}
+	}
 	i := fr.concreteInt(idx, "IndexAddr index at "+fr.m.pos(instr.Pos()))
 	switch x := x.(type) {
 	case Slice:
